@@ -212,6 +212,25 @@ func tIf(c, a, b *T) *T {
 	}
 	// add factoring
 	if a.Op == "add" || b.Op == "add" {
+		// positive constant summands: factor out the smaller one (if(c, x+17, 16) = 16 + if(c, x+1, 0))
+		constOfSum := func(t *T) int64 {
+			for _, x := range addParts(t) {
+				if v, ok := isConstT(x); ok {
+					return v
+				}
+			}
+			if v, ok := isConstT(t); ok {
+				return v
+			}
+			return 0
+		}
+		if ka, kb := constOfSum(a), constOfSum(b); ka > 0 && kb > 0 && ka != kb {
+			m := ka
+			if kb < m {
+				m = kb
+			}
+			return tAdd(tConst(m), tIf(c, tAdd(a, tConst(-m)), tAdd(b, tConst(-m))))
+		}
 		ma := map[string]int{}
 		for _, x := range addParts(a) {
 			ma[x.String()]++
@@ -318,6 +337,15 @@ func tLen(x *T) *T {
 		return tConst(0)
 	case "bytes": // append(data, b0, b1, …): one byte per operand
 		return tConst(int64(len(x.A)))
+	case "cast", "deref":
+		// a value of fixed array type [N]T: its length is N
+		if strings.HasPrefix(x.K, "[") {
+			if i := strings.Index(x.K, "]"); i > 1 {
+				if n, err := strconv.ParseInt(x.K[1:i], 10, 64); err == nil {
+					return tConst(n)
+				}
+			}
+		}
 	}
 	return mk("len", "", x)
 }
@@ -325,6 +353,19 @@ func tLen(x *T) *T {
 // tLoop: loop(kind; space...; body). A size loop whose body is a constant K
 // over a counted space normalises to K*N.
 func tLoop(kind string, space []*T, body *T) *T {
+	if kind == "range" && len(space) == 1 {
+		// `for i := range s { e := &s[i] … }` is `for _, e := range s`: s[$kN] is the element $rN,
+		// and a field read through its address is the field
+		body = rewriteT(body, func(t *T) *T {
+			if t.Op == "index" && len(t.A) == 2 && eq(t.A[0], space[0]) && t.A[1].Op == "var" && strings.HasPrefix(t.A[1].K, "$k") {
+				return tVar("$r" + strings.TrimPrefix(t.A[1].K, "$k"))
+			}
+			if t.Op == "field" && len(t.A) == 1 && t.A[0].Op == "addr" && len(t.A[0].A) == 1 {
+				return mk("field", t.K, t.A[0].A[0])
+			}
+			return t
+		})
+	}
 	if v, ok := isConstT(body); ok && v == 0 {
 		return tConst(0)
 	}
